@@ -17,3 +17,9 @@ open Gossamer.C21
 #print axioms C21_precommit_target_reachable_partial
 #print axioms C21_bfc_closed_form
 #print axioms C21_finalise_closed_form
+#print axioms C21_set_change_resets
+#print axioms C21_filter_history
+#print axioms C21_history_good
+#print axioms C21_history_accounted
+#print axioms C21_precommit_target_history_partial
+#print axioms C21_set_change_example
